@@ -41,6 +41,32 @@ def imp_key (rel, tol, amp):
     return 'impedance'
 # end def imp_key
 
+def power_ratio (m):
+    """ apparent power of the sources over their net power: with several sources of which some absorb, the net input
+        power is a small difference of large numbers, and the gain (field squared over input power) magnifies a
+        relative current error d into 2 d S / P """
+    S = sum (0.5 * abs (complex (s.voltage)) * abs (complex (m.current [s.idx])) for s in m.sources)
+    return float (S / max (float (m.power), 1e-300))
+# end def power_ratio
+
+def gain_slack_db (m, d):
+    """ dB by which the gain may move when the currents move by d (relative to the largest) - through the input power """
+    if d is None or not np.isfinite (d):
+        return 0.0
+    return float (10 * np.log10 (1 + 2 * d * power_ratio (m)))
+# end def gain_slack_db
+
+def gain_dev_beam_db (ga, gb, d = None):
+    """ deviation between two gain tables (dB, same directions) measured on the scale of the main beam: the largest
+        difference of field amplitude over the largest amplitude, as dB (at the main beam this is the plain
+        difference in dB; in a null a current error of relative size d is a large factor of a small number and is
+        not counted as more than it is). Returns (measured dB, dB explained by a current deviation d). """
+    fa = 10 ** (np.maximum (np.asarray (ga, float), -300) / 20)
+    fb = 10 ** (np.maximum (np.asarray (gb, float), -300) / 20)
+    dev = float (np.abs (fa - fb).max () / max (fa.max (), 1e-300))
+    return float (20 * np.log10 (1 + dev)), float (20 * np.log10 (1 + (d or 0.0)))
+# end def gain_dev_beam_db
+
 def min_seg (m):
     return min (s.seg_len for g in m.geo for s in g.segments)
 # end def min_seg
